@@ -178,7 +178,7 @@ impl Dg {
     }
 
     /// direction of a label: (crossing, index) where it leaves and (crossing, index) where it arrives
-    fn ends(&self, o: &Orient, label: usize) -> Option<((usize, usize), (usize, usize))> {
+    pub fn ends(&self, o: &Orient, label: usize) -> Option<((usize, usize), (usize, usize))> {
         for s in &o.strands { let m = s.pass.len(); for t in 0..m { if s.labels[t] == label {
             let (i, _, ko) = s.pass[t]; let (j, kin, _) = s.pass[(t + 1) % m];
             return Some(((i, ko), (j, kin)))
@@ -202,6 +202,35 @@ impl Dg {
             _ => [l, e, e2, l],   // over first, negative
         };
         d.x.push((CT::X, code));
+        Ok(d)
+    }
+
+    /// Equivariant Reidemeister I for a diagram that is symmetric under the edge involution `rho`
+    /// (rotation by pi about an axis in the plane of the diagram; it reverses the orientation of the knot and
+    /// preserves crossing signs): a kink on the edge `label` and, when the edge is off the axis, the image kink on
+    /// rho(label).  A crossing [a,b,c,d] has image [rb,ra,rd,rc] when it is positive and [rd,rc,rb,ra] when negative.
+    /// Returns the new diagram; `rho` and `base` (an on-axis label) are updated in place.
+    pub fn sym_kink(&self, label: usize, kind: u8, rho: &mut BTreeMap<usize, usize>, base: &mut usize) -> Result<Dg, String> {
+        let f = *rho.get(&label).ok_or("no such label")?;
+        let m = self.max_label();
+        let d1 = self.kink(label, kind)?;
+        let (e, e2, l) = (label, m + 1, m + 2);
+        if f == label {
+            rho.insert(e, e2); rho.insert(e2, e); rho.insert(l, l);
+            if *base == e { *base = l; }
+            return Ok(d1)
+        }
+        let o = d1.orient(0)?;
+        let k = d1.n() - 1;
+        let sign = o.signs[k].ok_or("kink has no sign")?;
+        let (_, (j, kin)) = d1.ends(&o, f).ok_or("no such label")?;
+        let (f2, lf) = (m + 3, m + 4);
+        let mut d = d1.clone();
+        d.x[j].1[kin] = f2;
+        rho.insert(e, f2); rho.insert(f2, e); rho.insert(e2, f); rho.insert(f, e2); rho.insert(l, lf); rho.insert(lf, l);
+        let c = d1.x[k].1.map(|a| rho[&a]);
+        let img = if sign > 0 { [c[1], c[0], c[3], c[2]] } else { [c[3], c[2], c[1], c[0]] };
+        d.x.push((CT::X, img));
         Ok(d)
     }
 
